@@ -126,6 +126,27 @@ func (mt *memtable) set(entry types.Entry) {
 	mt.logger.Infof("memtable set [key: %v] [value: %v] [tombstone: %v] [version: %v]", entry.Key, string(entry.Value), entry.Tombstone, entry.Version)
 }
 
+// setBatch stores the entries of one transaction with a single wal append (one write, one
+// fsync), so that a crash leaves the transaction in the wal completely or not at all
+func (mt *memtable) setBatch(entries []types.Entry) {
+	mt.mu.Lock()
+	defer mt.mu.Unlock()
+
+	if mt.readOnly {
+		mt.logger.Panicf("write readonly memtable")
+	}
+
+	for _, entry := range entries {
+		mt.skiplist.Set(entry)
+	}
+	if err := mt.wal.Write(entries...); err != nil {
+		mt.logger.Panicf("write wal failed: %v", err)
+	}
+	for _, entry := range entries {
+		mt.logger.Infof("memtable set [key: %v] [value: %v] [tombstone: %v] [version: %v]", entry.Key, string(entry.Value), entry.Tombstone, entry.Version)
+	}
+}
+
 func (mt *memtable) get(key types.Key) (types.Entry, bool) {
 	mt.mu.RLock()
 	defer mt.mu.RUnlock()
